@@ -60,6 +60,7 @@ def pmtm_task(datatype, method, nwin, iters=None):
             dom.while_plan = iters
         I = tc.interp(stubs=dpss_contract(dom, nwin))
         hints = {"datatype": datatype, "method": method, "nwin": nwin, "iters": iters}
+        tc.native = ("pmtm", hints)
 
         def thunk(I):
             if iters is not None:
@@ -153,6 +154,7 @@ def precomputed_task(datatype):
         nwin = 2
         I = tc.interp(stubs=dpss_contract(dom, nwin))
         hints = {"datatype": datatype}
+        tc.native = ("pmtm_pre", hints)
 
         def thunk(I):
             N = dom.input_int("N")
@@ -219,6 +221,7 @@ def dpss_wrapper_task(k):
             return dom.opaque_array2("AUTOCOV", keys, s.r, s.c, "float")
         I = tc.interp(stubs={"opaque:clib.multitap": multitap, "spectrum.mtm._autocov": autocov})
         hints = {"k": k}
+        tc.native = ("dpss", hints)
 
         def thunk(I):
             N = dom.input_int("N")
